@@ -42,6 +42,7 @@ structure Perfs where
   p1 : Bytes    -- `more := true`
   p2 : Bytes    -- continuation fields only, `more := true`
   p3 : Bytes    -- continuation fields only, `more := orig_more`
+deriving DecidableEq
 
 /-- the `while remaining_bytes > max_frame_body_size` loop (fuel = bytes left):
     the payload pieces of the middle frames and what is left for the last frame -/
